@@ -42,6 +42,7 @@ class LoadFacts(BaseDomain):
         self.commits = []        # (call node, stmt, frozenset facts, in_abrupt)
         self.in_abrupt_finally = 0
         self.insert_stmts = []
+        self.implicit = set()
 
     def entry_state(self):
         return frozenset()
@@ -83,6 +84,19 @@ class LoadFacts(BaseDomain):
 
     def exec_return(self, s, st):
         self._note_commits(s, st)
+        return st
+
+    def exit_with(self, s, st):
+        # `with connection:` / `with session.begin():` ends the transaction when the block is left normally (commit)
+        for item in s.items:
+            e = item.context_expr
+            t = norm(e)
+            handle = isinstance(e, (ast.Name, ast.Attribute)) and (t in self.fn.params or 'conn' in t.lower() or
+                                                                   'session' in t.lower() or t.endswith('engine'))
+            begin = isinstance(e, ast.Call) and isinstance(e.func, ast.Attribute) and e.func.attr in ('begin', 'begin_nested', 'transaction')
+            if handle or begin:
+                self.commits.append((e, s, st, self.in_abrupt_finally > 0))
+                self.implicit.add(id(e))
         return st
 
     def exit_for(self, s, init, iterated, head):
@@ -175,6 +189,8 @@ def _check_impl(rep, fn):
         seen[k] = (prev[0] and ok if prev else ok, region, call, facts if not ok else (prev[3] if prev else facts))
     for k, (ok, region, call, facts) in seen.items():
         c = norm(call)
+        if id(call) in dom.implicit:
+            c = 'with %s: (commits when the block is left)' % norm(call)
         if region:
             rep.violated('R17.1', fn, c,
                          'commit() inside a%s %s block: it also runs when the source raised while rows were being '
